@@ -72,6 +72,7 @@ structure St where
   reported : List String := []
   prevMembers : List String := []
   expectUnchanged : Bool := false
+  errPending : List String := []            -- containers whose pending change stems from an error reply
   dropped : List String := []               -- live containers a bulk re-allocation (sync/reconfig/restart) left without balloon
   reconfigChanged : List String := []       -- containers whose told cpuset changed in the reply to a re-applied configuration
   drained : Bool := false
@@ -190,6 +191,7 @@ def checkState (st : St) : List String :=
         let bmems := ((s.members.find? (·.1 == c.id)).bind fun m => s.blns.find? (fun b => b.defn == m.2.1 && b.inst == m.2.2.1)).map (·.mems) |>.getD []
         let errs := if !sameSet told (maskBits z) then
             (if !sub bmems (maskBits z) then errs ++ [s!"C04:balloons-mems-differ-from-allocator-zone {c.id} told {c.rtMems} zone {maskBits z} balloon mems {bmems}"]
+             else if st.errPending.contains c.id then errs ++ [s!"C05:pending-after-error-reply balloons: zone change of {c.id} made by a refused request stays pending"]
              else errs ++ [s!"C04:balloons-zone-change-not-delivered {c.id} told {c.rtMems} zone {maskBits z}"]) else errs
         if (maskBits z).isEmpty then errs ++ [s!"C04:empty-mems {c.id}"] else errs
       else errs
@@ -248,7 +250,7 @@ def memsOfRes (r : String) : String := (r.splitOn "|").getD 1 "-"
 def step (st : St) (toks : List String) : St × List Issue :=
   match toks with
   | "H" :: h :: _ =>
-    ({ st with hist := h.toNat?.getD 0, ctrs := [], defs := [], tree := [], snap := {}, cacheView := [], lastEv := [], keys := [], model := none, prevBlns := [], initBlns := none, prevMembers := [], dropped := [], reconfigChanged := [], expectUnchanged := false,
+    ({ st with hist := h.toNat?.getD 0, ctrs := [], defs := [], tree := [], snap := {}, cacheView := [], lastEv := [], keys := [], model := none, prevBlns := [], initBlns := none, prevMembers := [], dropped := [], reconfigChanged := [], expectUnchanged := false, errPending := [],
                modelDesync := false, reported := [], drained := false, hists := st.hists + 1 }, [])
   | "M" :: _ => (st, [])
   | "HERR" :: _ => (st, [])
@@ -362,7 +364,10 @@ def step (st : St) (toks : List String) : St × List Issue :=
     let cv := if view == "-" then [] else (view.splitOn ",").filterMap fun e => match e.splitOn ":" with
       | [id, stt, res, pend] => some (id, stt, cpusOfRes res, pend == "1")
       | _ => none
-    ({ st with cacheView := cv }, [])
+    let pend := (cv.filter (·.2.2.2)).map (·.1)
+    let ep := st.errPending.filter (pend.contains ·)
+    let ep := if !st.lastOk then (ep ++ pend).eraseDups else ep
+    ({ st with cacheView := cv, errPending := ep }, [])
   | ["BS", a, r, f, i, pc, ic] =>
     match (kv a "allowed").bind pset, (kv r "reserved").bind pset, (kv f "free").bind pset, (kv i "isolated").bind pset with
     | some a, some r, some f, some i =>
